@@ -111,6 +111,18 @@ pub fn run(a: &Args) {
                             tr.emit(json!({"ev": "srcfault", "which": "shp", "k": k, "withIdx": with_idx, "random": random,
                                            "fired": s.faults_fired() > 0, "res": res}));
                             cases += 1;
+                            if !s.fault_on_seek() && s.faults_fired() > 0 {
+                                // the same failing read under another error kind (the kind must not matter)
+                                let kinds = [std::io::ErrorKind::InvalidData, std::io::ErrorKind::PermissionDenied, std::io::ErrorKind::TimedOut,
+                                             std::io::ErrorKind::WouldBlock, std::io::ErrorKind::InvalidInput, std::io::ErrorKind::BrokenPipe];
+                                let s = LogSource::new(f.shp.clone());
+                                s.set_fault(Some(k), false);
+                                s.set_read_kind(kinds[k % kinds.len()]);
+                                let res = traverse(&c, s.clone(), if with_idx { Some(LogSource::new(f.shx.clone())) } else { None }, t, random, n);
+                                tr.emit(json!({"ev": "srcfault", "which": "shp", "k": k, "withIdx": with_idx, "random": random,
+                                               "fired": s.faults_fired() > 0, "res": res, "kind": format!("{:?}", kinds[k % kinds.len()])}));
+                                cases += 1;
+                            }
                             if s.fault_on_seek() {
                                 // the same failing seek, reported the way EINTR is
                                 let s = LogSource::new(f.shp.clone());
